@@ -5,12 +5,12 @@ from __future__ import annotations
 import asyncio
 from typing import Any
 
-from . import vloop
+from . import uvrun, vloop
 from .replay import Recorder, ScenarioController, ensure_repo_on_path
 
 
 def run_scenario(scn: dict, *, fast: bool = False, init: int = 1, maxv: int = 0,
-                 eager: bool = False) -> dict:
+                 eager: bool = False, uv: bool = False) -> dict:
     ensure_repo_on_path()
     import anyio
 
@@ -97,7 +97,7 @@ def run_scenario(scn: dict, *, fast: bool = False, init: int = 1, maxv: int = 0,
                     held -= 1
 
     async def main() -> None:
-        loop = state["loop"] = asyncio.get_running_loop()
+        loop = state["loop"] = uvrun.view(asyncio.get_running_loop())
         state["sem"] = anyio.Semaphore(init, max_value=(maxv or None), fast_acquire=fast)
         state["scopes"] = {t: anyio.CancelScope() for t in range(1, nt + 1)}
         state["tasks"] = {}
@@ -106,7 +106,7 @@ def run_scenario(scn: dict, *, fast: bool = False, init: int = 1, maxv: int = 0,
         await asyncio.wait(list(state["tasks"].values()))
         quiescent()
 
-    loop, _res, err = vloop.run(main, ctl, eager=eager, max_handles=20000)
+    loop, _res, err = (uvrun.run if uv else vloop.run)(main, ctl, eager=eager, max_handles=20000)
     rec.closed = True
     flags = {"deadlock": isinstance(err, vloop.Deadlock), "budget": loop.budget_exceeded,
              "error": None if err is None or isinstance(err, (vloop.Deadlock, vloop.BudgetExceeded))
